@@ -215,6 +215,9 @@ fn faults_with_kind(cex: &Value) -> Result<String, String> {
         }
       }
     }
+    if let Some(line) = purge_dangling(&did) {
+      out.push(line);
+    }
     for with_refs in [false, true] {
       for scope in [MethodScope::VerificationMethod, MethodScope::authentication()] {
         for psched in &schedules {
@@ -246,6 +249,25 @@ fn faults_with_kind(cex: &Value) -> Result<String, String> {
 }
 
 /// one purge under `sched` (occurrence numbers count from the purge call) in a freshly built world
+/// purge of an id that exists only as a reference (its method lives elsewhere): MethodNotFound, document unchanged
+fn purge_dangling(did: &CoreDID) -> Option<String> {
+  use identity_core::convert::FromJson;
+  let text = format!(
+    r#"{{"id":"{did}","authentication":["{did}#ghost"],"assertionMethod":["{did}#ghost","did:example:elsewhere#key"]}}"#
+  );
+  let mut doc = CoreDocument::from_json(&text).ok()?;
+  let st = Storage::new(JwkMemStore::new(), KeyIdMemstore::new());
+  let before = snapshot(&doc);
+  let id = did.to_url().join("#ghost").unwrap();
+  let res = block_on(doc.purge_method(&st, &id));
+  match res {
+    Ok(()) => Some("[purge-dangling] purge of an id that only exists as a reference reported success".to_owned()),
+    Err(JwkStorageDocumentError::UndoOperationFailed { .. }) => None,
+    Err(_) if snapshot(&doc) != before => Some("[purge-dangling] MethodNotFound returned but the references to the id were removed from the document".to_owned()),
+    Err(_) => None,
+  }
+}
+
 fn purge_world(did: &CoreDID, scope: MethodScope, with_refs: bool, sched: &[u32]) -> Result<Option<String>, String> {
   // set-up calls: generate#other (generate, insert_key_id), generate#k (generate, insert_key_id) = 4 storage calls
   let f = Faults { n: Rc::new(Cell::new(100_000)), fail: Rc::new(sched.to_vec()), log: Rc::new(Default::default()) };
